@@ -413,6 +413,8 @@ let handle (line : string) : string =
     show_res hex_of_bytes (M.valset_payload (List.map item_of_string items))
   | ["valgetpoll"; keys] ->
     show_res hex_of_bytes (M.valget_poll_payload (zlist_of_string keys))
+  | ["valgetenc"; sk; h] ->
+    show_res hex_of_bytes (M.valget_reencode (nlist_of_string sk) (bytes_of_hex h))
   | ["valget"; sk; h] ->
     show_res (fun (fs, its) ->
         string_of_fields fs ^ " " ^ String.concat " " (List.map string_of_item its))
